@@ -56,6 +56,30 @@ NormClause(c, i) ==
 RECURSIVE FirstBad(_, _)
 FirstBad(c, i) == IF i > Len(c.norms) THEN <<"ok", 0>> ELSE LET cl == NormClause(c, i) IN IF cl = "ok" THEN FirstBad(c, i + 1) ELSE <<cl, i>>
 Bars(L) == [i \in 1..Len(L) |-> <<L[i][1], L[i][2]>>]
+\* kind = "fnorms": landscapes with ARBITRARY float coordinates (decimal inputs, rounding noise in the critical values: nearly flat segments).
+\* pts = per depth [[x, y, mark]] with x, y the observed floats as Fix records (1e-16); the harness has inserted the zero crossing of every
+\* sign-changing segment (mark = 1, y = 0), which is verified here by collinearity, so that every piece is one-signed and its integral of
+\* |f|^p is L * (a^p + a^(p-1) b + ... + b^p) / (p + 1) -- no division by a difference.  norms = [[p, finite, observed norm^p]], sup.
+RECURSIVE GeoFix(_, _, _, _)
+GeoFix(a, b, p, i) == IF i > p THEN FZero ELSE FAdd(FMul(FPow(a, i), FPow(b, p - i)), GeoFix(a, b, p, i + 1))
+PieceInt(x0, y0, x1, y1, p) == FDivInt(FMul(FSub(x1, x0), GeoFix(FAbs(y0), FAbs(y1), p, 0)), p + 1)
+RECURSIVE SumPieces(_, _, _)
+SumPieces(pts, i, p) == IF i >= Len(pts) THEN FZero ELSE FAdd(PieceInt(pts[i][1], pts[i][2], pts[i + 1][1], pts[i + 1][2], p), SumPieces(pts, i + 1, p))
+RECURSIVE SumDepthsF(_, _, _)
+SumDepthsF(c, d, p) == IF d > Len(c.pts) THEN FZero ELSE FAdd(SumPieces(c.pts[d], 1, p), SumDepthsF(c, d + 1, p))
+\* an inserted crossing (x, 0) between (x0, y0) and (x1, y1): y0 (x1 - x) + y1 (x - x0) = 0 up to the 1e-16 grain of the records
+CrossingOK(c) == \A d \in 1..Len(c.pts) : \A i \in 2..(Len(c.pts[d]) - 1) : c.pts[d][i][3] = 1 =>
+    /\ NIsZero(c.pts[d][i][2].m)
+    /\ FClose(FAdd(FMul(c.pts[d][i - 1][2], FSub(c.pts[d][i + 1][1], c.pts[d][i][1])), FMul(c.pts[d][i + 1][2], FSub(c.pts[d][i][1], c.pts[d][i - 1][1]))), FZero, E12)
+OneSigned(c) == \A d \in 1..Len(c.pts) : \A i \in 1..(Len(c.pts[d]) - 1) :
+    ~((c.pts[d][i][2].s < 0 /\ ~NIsZero(c.pts[d][i][2].m) /\ c.pts[d][i + 1][2].s > 0 /\ ~NIsZero(c.pts[d][i + 1][2].m))
+      \/ (c.pts[d][i][2].s > 0 /\ ~NIsZero(c.pts[d][i][2].m) /\ c.pts[d][i + 1][2].s < 0 /\ ~NIsZero(c.pts[d][i + 1][2].m)))
+FNormClause(c, i) ==
+  LET e == c.norms[i] IN
+  IF e[2] = 0 THEN "norm-not-finite"
+  ELSE IF FCloseRel(e[3], SumDepthsF(c, 1, e[1]), E12, E9) THEN "ok" ELSE "p-norm-differs-from-integral"
+RECURSIVE FirstBadF(_, _)
+FirstBadF(c, i) == IF i > Len(c.norms) THEN <<"ok", 0>> ELSE LET cl == FNormClause(c, i) IN IF cl = "ok" THEN FirstBadF(c, i + 1) ELSE <<cl, c.norms[i][1]>>
 \* kind = "laws": the consequences the property names, on ONE session over two shared landscape objects P, Q (both norms of P and Q are
 \* validated against their integrals by two ordinary "norms" cases, taken before and after the session).  c = <<num, den>> the scalar,
 \* rows = [[p (0 = sup norm), finite, nP, nQ, n(P-Q), n(Q-P), n(P-P), n(c*P), n(P+Q)]] as Fix records, all divided by max(nP, nQ) (the
@@ -78,6 +102,9 @@ Verdict(c) ==
            ELSE IF c.sup[1] = 0 THEN <<"fail", "sup-norm-not-finite", 0>>
            ELSE IF ~Close(c.sup[2], SupOf(c.obj, c.q)) THEN <<"fail", "sup-norm-differs-from-largest-absolute-value", 0>>
            ELSE <<"ok", "", 0>>)
+  ELSE IF c.kind = "fnorms" THEN
+     (IF ~CrossingOK(c) \/ ~OneSigned(c) THEN <<"machinery", "bad-zero-crossing-certificate", 0>>
+      ELSE LET fb == FirstBadF(c, 1) IN IF fb[1] = "ok" THEN <<"ok", "", 0>> ELSE <<"fail", fb[1], fb[2]>>)
   ELSE IF c.kind = "laws" THEN
      (LET fb == FirstBadLaw(c, 1) IN IF fb[1] = "ok" THEN <<"ok", "", 0>> ELSE <<"fail", fb[1], fb[2]>>)
   ELSE \* stability law, both sides observed from the code; inputs on which the exact sweep takes its repeated-bar shortcut are excluded
